@@ -165,7 +165,9 @@ impl FromStr for Move {
         if s == "0000" {
             return Ok(Move::Null);
         }
-        if !matches!(s.len(), 4 | 5) {
+        // UCI moves are pure ASCII. Rejecting everything else here also guarantees that the byte
+        // offsets used below are character boundaries.
+        if !matches!(s.len(), 4 | 5) || !s.is_ascii() {
             return Err(RawParseError::BadLength);
         }
         let src = Coord::from_str(&s[0..2]).map_err(RawParseError::BadSrc)?;
